@@ -409,6 +409,12 @@ NonceConsecutive(s, h) ==
   /\ \A i \in DOMAIN FreshOut(h) : FreshOut(h)[i].msg.nonce = h.start + i - 1
   /\ s.nextNonce = h.start + Len(FreshOut(h))
 
+\* C14 along the history: a receive that was rolled back (failed, simulated, or inside a transaction that failed)
+\* leaves nothing behind that could change the fate of the next attempt for the same (domain, nonce)
+RetryUnaffected(pre, h, m, f, o) ==
+  (m.type = "ReceiveMessage" /\ m.wire.k = "msg" /\ [d |-> m.wire.src, n |-> m.wire.nonce] \in h.rolled /\ ~DontCare(m))
+     => (Run(pre, m, f).out.res = "ok" => ResOf(o) = "ok")
+
 HistFails(s, h) ==
   {p \in {"C02", "C04", "C05", "C07"} :
      ~ CASE p = "C02" -> AtMostOnce(h) /\ UsedJustified(s, h) /\ RecvMarks(s, h)
